@@ -3,6 +3,8 @@
 import json
 
 CLAIMED = {
+ "C02": ("model_checking", "6 C02", "TTLV.tla: independent definition of the wire format (encoder with two's complement on byte sequences + recursive-descent recogniser), lemmas checked by TLC on a bounded tree universe; KmipEnvelope.tla: response envelope grammar with tag numbers from the KMIP tag table; bound to the code by TLC validating bytes the implementation emits: primitive encodings at boundary values against Enc of the intended value, every encoded request and every response a real KmipSession sends over random histories in all versions (all error classes, undecodable frames, unauthenticated connections, size limits)",
+         "explicit TLA+ byte-level specification + TLC validation of emitted byte strings (trace validation at the byte level)"),
  "C03": ("model_checking", "4.2, 6 C03", "TLC: decision lemma ImplAllowed=>Granted over the full product + all MC_C03 histories; every model transition replayed on the real engine; random multi-client histories and a denied-vs-nonexistent differential probe, all validated against KmipEngine/KmipProps by TLC (TraceEngine)",
          "TLA+ model checking + spec->code edge replay + trace validation; differential denial probe"),
  "C04": ("model_checking", "6 C04", "TLC: all MC_C04 histories (lifecycle x masks x cryptographic uses) checked against C04 predicates; every model transition replayed on the real engine; random histories validated by TraceEngine.tla",
@@ -30,7 +32,6 @@ CLAIMED = {
 }
 NOT_YET = {
  "C01": "check not built yet in this round (TTLV.tla / KmipSchema.tla planned, DESIGN 6 C01)",
- "C02": "check not built yet in this round",
  "C05": "check not built yet in this round",
  "C06": "check not built yet in this round",
  "C09": "check not built yet in this round",
